@@ -18,6 +18,10 @@ claimed = {
  'C13': ("All paths of Parse over the bounded inputs; the construct shape table is evaluated on the symbolic source bytes of every node's span.", "§C13"),
 }
 claimed['C15'] = ("Unit-level: every path of the five line recognisers over all lines up to the bound, all 256 bytes for the classifiers, NormalizeURI and IsEmailAddress over all short byte strings; each compared with a reference transcribed from the spec text; solver-decided.", "§C15")
+claimed['C04'] = ("Every path of Parse, streaming NextBlock+Rewrite, Render under 18 configurations, Walk and format.Format over the bounded inputs and the end-of-input / nesting templates is explored; a panic or a step-budget exhaustion on any feasible path is a violation; error values asserted.", "§C04")
+claimed['C07'] = ("All paths of Parse+Render (IgnoreRaw, and raw-free documents) over the bounded inputs and one template per attribute-emission site; a strict tokenizer over the symbolic output asserts vocabulary, nesting, quoting and escaping; solver-decided.", "§C07")
+claimed['C10'] = ("All paths of Parse+Render in 36 configurations over the bounded inputs and templates; output compared byte-for-byte (solver query per comparison) with an independent reference renderer; determinism, purity (frozen heap) and the join rule asserted.", "§C10")
+claimed['C17'] = ("All paths of Parse+Render with and without each of 5 predicates over HTML templates with symbolic holes and short unconstrained inputs; alignment and WHATWG-tokenizer clauses asserted on the symbolic output.", "§C17")
 reasons = {}
 
 checks = []
